@@ -386,6 +386,8 @@ func inlineNewHelpers1(prog *ssa.Program, main *ssa.Package, renamed map[*ssa.Fu
 	sort.Slice(fns, func(i, j int) bool { return fns[i].String() < fns[j].String() })
 	for _, fn := range fns {
 		if touched[fn] {
+			// the struct parameter of an inlined helper is a second variable holding a copy of the caller's
+			ssa.MergeCopiedLocals(fn)
 			ssa.CleanupAfterSplit(fn)
 		}
 		n := ssa.ScalarReplace(fn, carrierType)
@@ -398,6 +400,9 @@ func inlineNewHelpers1(prog *ssa.Program, main *ssa.Package, renamed map[*ssa.Fu
 			fmt.Fprintln(os.Stderr, "sipvet: cleanup", fn.String())
 		}
 		ssa.CleanupAfterSplit(fn)
+		if touched[fn] && ssa.SplitJoinedReturns(fn) > 0 {
+			ssa.CleanupAfterSplit(fn)
+		}
 		if rep := ssa.SanityCheckFunction(fn); rep != "" {
 			return done, fmt.Errorf("scalar replacement in %s left inconsistent SSA: %s", fn.RelString(main.Pkg), firstLine(rep))
 		}
